@@ -24,7 +24,11 @@ echo "demo without: $r_without"; echo "demo with: $r_with"; echo "suite with: $s
 # examined while other work goes on; with MUTANT_ON_REPO=1 the patch is applied to
 # /repo itself (git -C /repo apply) and undone straight afterwards.
 t0=$(date +%s)
-if [ -n "$MUTANT_ON_REPO" ]; then
+where=worktree
+if [ -n "$MUTANT_ON_REPO" ] && git -C /repo apply --check $m/patch.diff 2>/dev/null; then
+  where=repo
+fi
+if [ "$where" = repo ]; then
   cd /repo && git apply $m/patch.diff || { echo "cannot apply to /repo"; exit 2; }
   chk=$(cd /verif && GOSYM_OUT=/tmp/mutant-evidence-$prop-$n.json timeout 1800 bash check.sh $prop $tier 2>&1 | grep -v "^gosym: [0-9]*s" | tail -12)
   git -C /repo checkout -- .
@@ -37,11 +41,12 @@ t1=$(date +%s)
 rm -f /tmp/mutant-evidence-$prop-$n.json
 echo "$chk"
 cp $m/patch.diff $out/patch.diff; cp $m/demo_test.go.txt $out/demo_test.go.txt; cp $m/README.md $out/README.md 2>/dev/null
-python3 - "$prop" "$n" "$dir" "$re" "$r_without" "$r_with" "$suite" "$chk" "$((t1-t0))" "$tier" > $out/meta.json <<'PY'
+python3 - "$prop" "$n" "$dir" "$re" "$r_without" "$r_with" "$suite" "$chk" "$((t1-t0))" "$tier" "$where" "$(git -C $wt rev-parse --short HEAD)" "$(git -C /repo rev-parse --short HEAD)" > $out/meta.json <<'PY'
 import json,sys
-prop,n,d,re,rw,rwi,suite,chk,secs,tier=sys.argv[1:11]
+prop,n,d,re,rw,rwi,suite,chk,secs,tier,where,base,head=sys.argv[1:14]
 detected = "VIOLATION property="+prop in chk
 print(json.dumps({"property":prop,"mutant":int(n),"demo_dir":d,"demo_run":re,
+ "check_ran_on": ("/repo (git -C /repo apply; undone afterwards) at "+head) if where=="repo" else ("scratch worktree of /repo at "+base+" with the patch applied (the patch does not apply to /repo HEAD "+head+", or worktree mode was requested)"),
  "confirmed":{"demo_without_change":rw.strip(),"demo_with_change":rwi.strip(),"suite_with_change":suite.strip()},
  "check_tier":tier,"check_seconds":int(secs),"detected_by_check":detected,"check_output_tail":chk.splitlines()[-8:]},indent=1))
 PY
